@@ -110,6 +110,18 @@ CHECKS.update({
         note='Trusted: refninja ($-escapes, $in/$out quoting), the buildargv port for @file, /bin/sh. POSIX/Ninja only (no VS/Xcode, no cmd.exe quoting). @TEMPLATE@-forming strings and newline-bearing compile/link arguments (refused by meson with an error) are not enumerated.'),
 })
 
+CHECKS.update({
+    'C15': dict(
+        category='exploration', design_ref='DESIGN.md §4 C15',
+        technique='bounded exhaustive enumeration of generated project shapes (plus hand-written and corpus projects, option command lines, a test project, install projects) with relational comparison of meson-info/intro-*.json against sibling artifacts produced by real code',
+        text='For every projgen shape of <= 3 targets (with decoy build files), two feature-rich projects and part of test cases/common the real `meson setup` '
+             'runs; intro-targets.json is compared with build.ninja read by the reference Ninja reader (output names of each target, sources consumed by its '
+             'compile statements), intro-buildsystem_files.json with the build files actually entered; intro-buildoptions.json with message()d get_option() '
+             'values under several command lines; intro-tests/benchmarks.json with the argv/env seen by tests run by the real `meson test` and with --list per '
+             'suite selector; intro-install_plan/intro-installed.json with the tree the real `meson install` creates for all tags and for each tag.',
+        note='Trusted: refninja; the C argv dumper. Unity builds and targets with prebuilt/extracted objects are skipped for the sources comparison; symlinks and empty directories are not required to be named by the install plan.'),
+})
+
 NOT_YET = {}
 
 
